@@ -276,6 +276,7 @@ def check(prog, rep, tier):
                       'yields every key its sibling encoder reads unconditionally')
     rep.rule('R07.k', 'IPv6 unicast MP_REACH next hop: the link-local part is reported exactly when the next-hop '
                       'length is 32, independent of the address values')
+    rep.rule('R07.l', 'unsigned wire: no signed struct code in any format string of the NLRI / MP codecs')
     rep.assumptions += ['value equality of the round trip is not decided',
                         'a MAC address has six groups (b"".join of one octet per group is 6 octets)']
 
@@ -570,6 +571,11 @@ def check(prog, rep, tier):
             rep.ok('R07.k', key, file=fpm.file, line=fpm.node.lineno, found='%d path(s)' % nv)
         else:
             rep.undecided('R07.k', key, file=fpm.file, line=fpm.node.lineno, found='no returning path')
+
+    # ---------------------------------------------------------------- R07.l
+    common.report_signed_formats(prog, rep, 'R07.l', lambda fn: fn.module.name.startswith((
+        'yabgp.message.attribute.nlri', 'yabgp.message.attribute.mpreachnlri', 'yabgp.message.attribute.mpunreachnlri')),
+        60)
 
     # ---------------------------------------------------------------- R07.i
     common.report_boundary_splits(prog, rep, 'R07.i', lambda fn: fn.module.name.startswith((
